@@ -60,9 +60,9 @@ func generate(family string, seed uint64, tier string, index int) *Spec {
 	return sp
 }
 
-func pb(b bool) *bool       { return &b }
-func ps(s string) *string   { return &s }
-func pi(i int) *int         { return &i }
+func pb(b bool) *bool     { return &b }
+func ps(s string) *string { return &s }
+func pi(i int) *int       { return &i }
 
 type shapeOpt struct {
 	minHA, maxHA int
